@@ -147,6 +147,30 @@ def centroid_general_position(case):
     return True
 
 
+def border_margin(case):
+    """Required distance (original px) of every keypoint from the frame border: 3 output cells of the coarsest stage
+    (refinement windows / ideal bumps must not be truncated by the border or the padding) + anti-aliasing reach."""
+    eff = sizematch(case["h"], case["w"], case["max_h"], case["max_w"])[0]
+    s1 = case["scale"] * eff
+    cells = [case["stride"] / s1]
+    smin = min(1.0, s1)
+    if case["kind"] == "topdown":
+        s2 = case["scale2"] * eff
+        cells.append(case["stride2"] / s2)
+        smin = min(smin, s2)
+    return 3.0 * max(cells) + 2.0 / smin
+
+
+def border_margin_violated(case):
+    m = border_margin(case) - 1e-6
+    for animals in case["frames"]:
+        for an in animals:
+            for p in an:
+                if p is not None and not (m <= p[0] <= case["w"] - 1 - m and m <= p[1] <= case["h"] - 1 - m):
+                    return "keypoint-too-close-to-border"
+    return None
+
+
 def stage_sigma(stride, s_total):
     """sigma in ORIGINAL px = SIGMA_CELLS output cells."""
     return SIGMA_CELLS * stride / s_total
@@ -269,6 +293,11 @@ def evaluate(case):
     if kind == "topdown" and not centroid_general_position(case):
         res.rejected = True  # statement: keypoint layouts in general position (a centroid half-way between two
         res.cls("rejected:centroid-not-in-general-position")  # cells is a plateau, legitimately not a strict local peak)
+        return res
+    why = border_margin_violated(case)
+    if why:
+        res.rejected = True  # documented assumption: keypoints keep >= 3 output cells from the frame border
+        res.cls("rejected:" + why)
         return res
     d = env.scratch_dir("c02")
     try:
@@ -432,8 +461,11 @@ def strategy(tier):
             w = int(min(250, max(48, math.ceil(need_w) + draw(st.integers(0, 24)))))
             h = int(min(250, max(48, math.ceil(need_h) + draw(st.integers(0, 24)))))
         else:
-            h = draw(st.integers(12, 50)) * 4
-            w = draw(st.integers(12, 50)) * 4
+            _, _, margin_ = geometry(min(eff_guess, 1.0) if smc != "larger" else 1.0)
+            lo = int(math.ceil((2 * margin_ + 12) / 4.0))
+            h = draw(st.integers(max(12, lo), max(50, lo + 10))) * 4
+            w = draw(st.integers(max(12, lo), max(50, lo + 10))) * 4
+            h, w = min(h, 248), min(w, 248)
             if draw(st.integers(0, 3)) == 0:  # arbitrary (non multiple of 4) sizes too
                 h += draw(st.integers(1, 3))
                 w += draw(st.integers(1, 3))
@@ -444,9 +476,9 @@ def strategy(tier):
         elif smc == "larger":
             mh, mw = h + draw(st.integers(1, 60)), w + draw(st.integers(1, 60))
         elif smc == "smaller":
-            mh, mw = max(40, h - draw(st.integers(1, 60))), max(40, w - draw(st.integers(1, 60)))
+            mh, mw = max(40, h - draw(st.integers(1, max(1, h // 4)))), max(40, w - draw(st.integers(1, max(1, w // 4))))
         else:
-            mh, mw = h + draw(st.integers(1, 60)), max(40, w - draw(st.integers(1, 60)))
+            mh, mw = h + draw(st.integers(1, 60)), max(40, w - draw(st.integers(1, max(1, w // 4))))
         mh = None if mh is None else min(mh, 300)
         mw = None if mw is None else min(mw, 300)
         eff = sizematch(h, w, mh, mw)[0]
@@ -476,8 +508,8 @@ def strategy(tier):
                 cy = draw(st.floats(margin + 0, max(margin + 0.01, h - 1 - margin)))
                 pts = []
                 for i in range(n_nodes):
-                    px = draw(st.floats(margin, max(margin + 0.01, w - 1 - margin)))
-                    py = draw(st.floats(margin, max(margin + 0.01, h - 1 - margin)))
+                    px = draw(st.floats(margin + 0.01, max(margin + 0.02, w - 1.01 - margin)))
+                    py = draw(st.floats(margin + 0.01, max(margin + 0.02, h - 1.01 - margin)))
                     pts.append([round(px, 2), round(py, 2)])
                 animals.append(pts)
             else:
